@@ -20,7 +20,16 @@ func (r *recLogDB) SaveRaftState(uds []pb.Update, shardID uint64) error {
 	if err == nil {
 		h := r.sim.hosts[r.host]
 		if h.inc == r.inc && (h.up || h.booting) {
-			r.sim.orc.onSaved(r.host, uds)
+			mine := uds
+			if r.sim.cfg.Ballast > 0 {
+				mine = nil
+				for _, ud := range uds {
+					if ud.ShardID == shardID {
+						mine = append(mine, ud)
+					}
+				}
+			}
+			r.sim.orc.onSaved(r.host, mine)
 		}
 	}
 	return err
@@ -34,6 +43,9 @@ func (r *recLogDB) SaveSnapshots(uds []pb.Update) error {
 	h := r.sim.hosts[r.host]
 	if h.inc == r.inc && h.sm != nil && h.sm.Kind == KindOnDisk && h.sm.Opened && !h.sm.Dead() {
 		for _, ud := range uds {
+			if ud.ShardID != shardID {
+				continue
+			}
 			ss := ud.Snapshot
 			if ss.OnDiskIndex > 0 && !ss.Witness && !ss.Imported && ss.Type != pb.OnDiskStateMachine+100 {
 				r.sim.ctx.Count("probe.ondisk_snapshot_recorded", 1)
